@@ -220,6 +220,7 @@ SEEDS = ["4x + 2x", "2x + 3y + x", "(x + 1) * 2", "2(x + 3) + 4x", "x * x^2 * 2"
          "(y + 4x) + 3x", "4x + 2 * 3x", "(y * 2x) * 3x", "5 + ((3 + x) + y)", "3x = 6 + 9y", "2 * ((x + 1) + 5) = 20", "x + -2y^2 = 3", "7 = 2 + 4x + y",
          "x - 2 = 3", "9 - 2x = 3", "-x = 4 + x", "x / 2 = 4", "x^2 = 4 + x^2", "y + (x + 2) = 7", "sgn(x) + 2 = 3", "5 = 3 + 2", "x + x = 2x", "1/2 x = 3",
          "10^400 * 2 + x", "7^365 + 1 + x", "2^1030 * x + 2^1030 * x", "(10^200)^2 + y",
+         "7 - (2 + x) = 3", "x = 10 - (y + 2 + z)", "4 - (x + 1) = y", "9 = 3 - (x - 2)", "2 * (x + 3) - (4 + x) = 1", "-(x + 2) = 5", "x / (2 + y) = 3",
          "0^0.5 * x = 0", "(0.0^2)x = 0", "(4^0.5)x = 6", "(4 / 0)x + 2x", "(2 - 2) * x + 2x"] + rewrite.SHARED_ID_EQ_FORMS[:6] + rewrite.SHARED_ID_FORMS[:5]
 
 
